@@ -9,11 +9,11 @@ Local Open Scope Z_scope.
 (* ---------- what CoreInv says about a registered raw event ---------- *)
 Lemma raw_facts : forall s j, InvW s -> rw_reg s j = true ->
   1000 <= rw_rfd s j /\ k_get (kern s) (rw_rfd s j) <> None /\
-  (if efd_raw s =? 0 then pipe_ok (kern s) (rw_rfd s j) (rw_wfd s j) else evfd_ok (kern s) (rw_rfd s j) (rw_wfd s j)).
+  (if raw_is_pipe s j then pipe_ok (kern s) (rw_rfd s j) (rw_wfd s j) else evfd_ok (kern s) (rw_rfd s j) (rw_wfd s j)).
 Proof.
   intros s j I R. pose proof (dy_kern _ (iw_dyn _ I) j R) as K. split; [|split; [|exact K]].
-  - destruct (efd_raw s =? 0); [destruct K as (A & _); exact A|destruct K as (A & _); exact A].
-  - destruct (efd_raw s =? 0).
+  - destruct (raw_is_pipe s j); [destruct K as (A & _); exact A|destruct K as (A & _); exact A].
+  - destruct (raw_is_pipe s j).
     + destruct K as (_ & _ & v & vw & O & _). apply k_open_get in O. destruct O as [G _]. congruence.
     + destruct K as (_ & _ & v & O & _). apply k_open_get in O. destruct O as [G _]. congruence.
 Qed.
@@ -35,7 +35,7 @@ Lemma raw_post_target : forall s j y, InvW s -> rw_reg s j = true ->
              ((vkind v = K_EVENTFD /\ y = rw_wfd s j) \/ (vkind v = K_PIPE_W /\ y = vpeer v))) -> y = rw_rfd s j.
 Proof.
   intros s j y I R (v & O & H). destruct (raw_facts s j I R) as (_ & _ & K).
-  destruct (efd_raw s =? 0).
+  destruct (raw_is_pipe s j).
   - destruct K as (_ & _ & vr & vw & Or & _ & _ & _ & Ow & KW & PW). rewrite O in Ow. inversion Ow; subst vw.
     destruct H as [[KE _]|[_ ->]]; [rewrite KW in KE; discriminate|exact PW].
   - destruct K as (_ & WR & vr & Or & KE). destruct H as [[_ ->]|[KW _]]; [exact WR|].
@@ -131,7 +131,7 @@ Proof.
   assert (M : a_rwp (mst s') = upd (a_rwp (mst s)) j true).
   { rewrite (a_rwp_silent _ _ T). unfold ex. rewrite mst_emit, a_rwp_step. reflexivity. }
   assert (RW : rw_reg s' = rw_reg s /\ rw_rfd s' = rw_rfd s).
-  { unfold s', raw_post. destruct (efd_raw ex =? 0); destruct (k_write _ _ _ _); split; reflexivity. }
+  { unfold s', raw_post. destruct (raw_is_pipe ex j); destruct (k_write _ _ _ _); split; reflexivity. }
   destruct RW as [RW1 RW2].
   apply (R3_upd _ s s' R C).
   - intros j' J' A. rewrite M in A. rewrite RW1. unfold upd in A. destruct (Z.eqb_spec j' j) as [->|N]; [exact GD|apply (r3_reg _ R j' J' A)].
@@ -141,9 +141,9 @@ Proof.
       assert (POS : 0 < vcnt v).
       { destruct (raw_facts s j IW GD) as (L & EX & K).
         destruct (r3_kp _ R) as (_ & PSs & _).
-        unfold s', raw_post in G. change (efd_raw ex) with (efd_raw s) in G. change (kern ex) with (kern s) in G.
+        unfold s', raw_post in G. change (raw_is_pipe ex j) with (raw_is_pipe s j) in G. change (kern ex) with (kern s) in G.
         change (rw_wfd ex j) with (rw_wfd s j) in G.
-        destruct (efd_raw s =? 0).
+        destruct (raw_is_pipe s j).
         - destruct K as (_ & _ & vr & vw & Or & KR & PR & POr & Ow & KW & PW).
           pose proof (k_open_get _ _ _ Or) as [Gr Cr]. pose proof (k_open_get _ _ _ Ow) as [Gw Cw].
           assert (PO : vpeer_open vw = true).
